@@ -497,7 +497,7 @@ example : (run { pauseBefore := .bool true, waitBefore := .int 2, timeout := .in
 /-- "policy_type_checked": if any evaluated parameter fails its schema check (non-integer, negative,
     non-boolean pause-before) the task start raises InvalidModelException inside `run_task`, which
     force-fails the task: ERROR with the forced message, no action execution, and the workflow fails
-    (unless paused). -/
+    (even when a pause-before of the same start had just paused it). -/
 theorem policy_type_checked (p : Params) (hw : p.wellTyped = false) (s : S) (hs : fresh s) :
     (startNew p s).st = .error ∧ (startNew p s).msg = .forced ∧ (startNew p s).acts = s.acts ∧
     (startNew p s).wf ≠ .running ∧ (startNew p s).crashes = s.crashes := by
@@ -510,13 +510,10 @@ theorem policy_type_checked (p : Params) (hw : p.wellTyped = false) (s : S) (hs 
   rw [hy] at hr hcr
   simp only [R.state] at hr hcr
   rw [e0]
-  have el : launch p { s with pendingNew := false } = forceFail y := by simp only [launch, hy]
+  have el : launch p { s with pendingNew := false } = forceFail s.wf y := by simp only [launch, hy]
   rw [el]
   refine ⟨rfl, rfl, hr.acts, ?_, hcr⟩
-  simp only [forceFail]
-  split
-  · simp
-  · assumption
+  simp [forceFail, h4]
 
 /-- well-typed parameters never force-fail the start -/
 theorem well_typed_start_not_forced (p : Params) (hw : p.wellTyped = true) (s : S) (hs : fresh s)
